@@ -350,6 +350,11 @@ def check_limits_and_pickling(prog, ctx, car):
                       "state it was saved with" % fi.qual)
     if not hooks:
         ctx.ok("C14.D6", "package::no-pickling-hooks", "sparseSpACE/*", "no class defines __getstate__/__setstate__/__reduce__/__deepcopy__: dill stores the whole __dict__")
+    check_area_value_reset(prog, ctx, "C14.D7")
+
+
+def check_area_value_reset(prog, ctx, rule):
+    """An area's partial result is re-assigned (not merely initialised when missing) on every path of area_preprocessing."""
     ap = prog.func("GridOperation.Integration.area_preprocessing")
     ctx.touch(ap)
     ca = cfg_of(ap)
@@ -362,7 +367,7 @@ def check_limits_and_pickling(prog, ctx, car):
         if s.attr == "value" and isinstance(s.base, ast.Name) and s.base.id == area and s.kind == "plain":
             resets.append(ca.node_of(s.stmt))
     ok = bool(resets) and any(ca.post_dominates(n, ca.entry) for n in resets)
-    ctx.check(ok, "C14.D7", R.key_of(ap, "area-value-reset"), ap.loc(),
+    ctx.check(ok, rule, R.key_of(ap, "area-value-reset"), ap.loc(),
               "an area's partial result is re-assigned on every path before the area is evaluated",
               "Integration.area_preprocessing does not re-assign the area's value on every path: an area that is evaluated again "
               "(after a stop and continue, or a recalculation) keeps its old contribution and adds the new one")
